@@ -1,6 +1,8 @@
 import Nstd.Hash.LemmasStep
 import Nstd.Hash.PtrStep
 import Nstd.Hash.LemmasString
+import Nstd.Hash.LemmasConst
+import Nstd.Generated.HashConst
 /-
   Property C02: HashMap / HashSet / PoolMap behave as insertion-ordered unique-key tables.
 
@@ -11,6 +13,9 @@ import Nstd.Hash.LemmasString
   chains, `prev`/`next` order list closed by the end sentinel of the owning object, free list through `prev`,
   `swap` re-anchoring the sentinel); section "pointer level" below proves that it is simulated by the
   chain-list model, hence refines the specification as well.
+  The class constants "items per block" (`ipb`) and "default capacity" (`dcap`) are parameters: the theorems hold for
+  EVERY `ipb ≥ 1` and `dcap ≥ 1` (`initWith ipb dcap`); the driver takes them from the current sources
+  (`Nstd/Generated/HashConst.lean`, written by the translator of tools/areas/hash.py).
   All theorems quantify over the container kind, EVERY hash function `h : Nat → Nat` (hence every
   collision pattern, including all keys in one bucket), every capacity (the `construct t cap` op takes
   any number; `0` becomes `1` as in the code) and every op list.
@@ -21,11 +26,13 @@ open Table
 /-! ### invariant -/
 
 /-- the invariant holds initially (two default-constructed tables) -/
-theorem inv_init (h : Nat → Nat) : SInv h init := init_inv h
+theorem inv_init (h : Nat → Nat) (ipb dcap : Nat) (hk : 0 < ipb) (hd : 0 < dcap) : SInv h (initWith ipb dcap) :=
+  initWith_inv h ipb dcap hk hd
 
 /-- explicitly constructed tables of ANY capacity satisfy the invariant (capacity 0 becomes 1) -/
-theorem inv_construct (h : Nat → Nat) (c0 c1 : Nat) : SInv h ⟨Table.construct c0, Table.construct c1⟩ :=
-  ⟨construct_inv h c0, construct_inv h c1⟩
+theorem inv_construct (h : Nat → Nat) (ipb dcap : Nat) (hk : 0 < ipb) (hd : 0 < dcap) (c0 c1 : Nat) :
+    SInv h ⟨Table.construct ipb dcap c0, Table.construct ipb dcap c1⟩ :=
+  ⟨construct_inv h ipb dcap c0 hk hd, construct_inv h ipb dcap c1 hk hd⟩
 
 /-- `Inv` is preserved by every op list from every state satisfying it -/
 theorem inv_run (kind : Kind) (h : Nat → Nat) (ops : List Op) (s s' : State) (outs : List Out)
@@ -53,12 +60,13 @@ theorem inv_run (kind : Kind) (h : Nat → Nat) (ops : List Op) (s s' : State) (
 
 /-- what `Inv` says about the buckets of every reachable table: once the bucket array exists, the chain of
     bucket `b` holds exactly the live items whose key hashes to `b` (mod capacity), each once -/
-theorem chains_partition (kind : Kind) (h : Nat → Nat) (ops : List Op) (s' : State) (outs : List Out)
-    (hr : run kind h init ops = some (s', outs)) (t : Bool) (ha : (s'.get t).allocated = true) (b id : Nat) :
+theorem chains_partition (kind : Kind) (h : Nat → Nat) (ipb dcap : Nat) (hk : 0 < ipb) (hd : 0 < dcap)
+    (ops : List Op) (s' : State) (outs : List Out)
+    (hr : run kind h (initWith ipb dcap) ops = some (s', outs)) (t : Bool) (ha : (s'.get t).allocated = true) (b id : Nat) :
     (id ∈ (s'.get t).data b ↔
       (id ∈ (s'.get t).order ∧ h ((s'.get t).items id).key % (s'.get t).cap = b)) ∧
     ((s'.get t).data b).Nodup ∧ 0 < (s'.get t).cap ∧ (s'.get t).size = (s'.get t).order.length := by
-  have hi := (inv_run kind h ops init s' outs (init_inv h) hr).get t
+  have hi := (inv_run kind h ops _ s' outs (initWith_inv h ipb dcap hk hd) hr).get t
   refine ⟨?_, hi.chain_nodup ha b, hi.cap_pos, hi.size_eq⟩
   rw [hi.chain_iff ha]
   constructor
@@ -66,11 +74,34 @@ theorem chains_partition (kind : Kind) (h : Nat → Nat) (ops : List Op) (s' : S
   · intro ⟨h1, h2⟩; exact ⟨h1, by rw [hi.cell_eq id h1]; exact h2⟩
 
 /-- no key is stored twice, and no item is both free and live, in every reachable table -/
-theorem unique_keys (kind : Kind) (h : Nat → Nat) (ops : List Op) (s' : State) (outs : List Out)
-    (hr : run kind h init ops = some (s', outs)) (t : Bool) :
+theorem unique_keys (kind : Kind) (h : Nat → Nat) (ipb dcap : Nat) (hk : 0 < ipb) (hd : 0 < dcap)
+    (ops : List Op) (s' : State) (outs : List Out)
+    (hr : run kind h (initWith ipb dcap) ops = some (s', outs)) (t : Bool) :
     (Spec.keys (s'.get t).iterate).Nodup ∧ (∀ id ∈ (s'.get t).free, id ∉ (s'.get t).order) := by
-  have hi := (inv_run kind h ops init s' outs (init_inv h) hr).get t
+  have hi := (inv_run kind h ops _ s' outs (initWith_inv h ipb dcap hk hd) hr).get t
   exact ⟨by rw [Table.keys_iterate]; exact hi.keys_nodup, hi.free_disj⟩
+
+/-- the item blocks, for every block size `ipb ≥ 1`: every table of every reachable state still carries the class constants it
+    was created with (also after copy construction, assignment, swap and re-construction), and every live and every free
+    item is slot `id % ipb` of one of the `blocks` blocks allocated so far (`id < ipb · blocks`) -/
+theorem block_structure (kind : Kind) (h : Nat → Nat) (ipb dcap : Nat) (hk : 0 < ipb) (hd : 0 < dcap)
+    (ops : List Op) (s' : State) (outs : List Out)
+    (hr : run kind h (initWith ipb dcap) ops = some (s', outs)) (t : Bool) :
+    (s'.get t).ipb = ipb ∧ (s'.get t).dcap = dcap ∧
+    (∀ id ∈ (s'.get t).order, id < ipb * (s'.get t).blocks) ∧ (∀ id ∈ (s'.get t).free, id < ipb * (s'.get t).blocks) := by
+  have hi := (inv_run kind h ops _ s' outs (initWith_inv h ipb dcap hk hd) hr).get t
+  have hc := (run_consts kind h (ipb, dcap) ops _ s' outs ⟨rfl, rfl⟩ hr).get t
+  have h1 : (s'.get t).ipb = ipb := congrArg Prod.fst hc
+  have h2 : (s'.get t).dcap = dcap := congrArg Prod.snd hc
+  exact ⟨h1, h2, h1 ▸ hi.order_lt, h1 ▸ hi.free_lt⟩
+
+/-- the constants the translator read from the CURRENT sources meet the hypotheses `0 < ipb`, `0 < dcap` of the theorems
+    (re-checked on every run; the driver runs the models with exactly these constants) -/
+theorem generated_constants_admissible :
+    0 < Nstd.Generated.Hash.itemsPerBlockMap ∧ 0 < Nstd.Generated.Hash.defaultCapacityMap ∧
+    0 < Nstd.Generated.Hash.itemsPerBlockSet ∧ 0 < Nstd.Generated.Hash.defaultCapacitySet ∧
+    0 < Nstd.Generated.Hash.itemsPerBlockPool ∧ 0 < Nstd.Generated.Hash.defaultCapacityPool := by
+  decide
 
 /-- `find` under the invariant, for every hash function: it returns the live item with that key, `end()` iff there is none -/
 theorem find_correct (h : Nat → Nat) (t : Table) (hi : t.Inv h) (k : Nat) :
@@ -113,29 +144,31 @@ theorem refines_from (kind : Kind) (h : Nat → Nat) (ops : List Op) (s : State)
 /-- C02, main statement: for EVERY hash function, every container kind and every op list (which may construct the two
     tables with any capacities at any time) the model started with two default-constructed tables agrees with the
     insertion-ordered association-list specification on all results and on the iteration lists -/
-theorem refines (kind : Kind) (h : Nat → Nat) (ops : List Op) :
-    (run kind h init ops).map (fun r => (abs r.1, r.2)) = Spec.run kind Spec.init ops := by
-  rw [← abs_init]
-  exact refines_from kind h ops init (init_inv h)
+theorem refines (kind : Kind) (h : Nat → Nat) (ipb dcap : Nat) (hk : 0 < ipb) (hd : 0 < dcap) (ops : List Op) :
+    (run kind h (initWith ipb dcap) ops).map (fun r => (abs r.1, r.2)) = Spec.run kind Spec.init ops := by
+  rw [← abs_initWith ipb dcap]
+  exact refines_from kind h ops _ (initWith_inv h ipb dcap hk hd)
 
 /-- the same with the capacities made explicit: EVERY pair of capacities -/
-theorem refines_every_capacity (kind : Kind) (h : Nat → Nat) (c0 c1 : Nat) (ops : List Op) :
-    (run kind h ⟨Table.construct c0, Table.construct c1⟩ ops).map (fun r => (abs r.1, r.2))
+theorem refines_every_capacity (kind : Kind) (h : Nat → Nat) (ipb dcap : Nat) (hk : 0 < ipb) (hd : 0 < dcap)
+    (c0 c1 : Nat) (ops : List Op) :
+    (run kind h ⟨Table.construct ipb dcap c0, Table.construct ipb dcap c1⟩ ops).map (fun r => (abs r.1, r.2))
       = Spec.run kind Spec.init ops :=
-  refines_from kind h ops _ (inv_construct h c0 c1)
+  refines_from kind h ops _ (inv_construct h ipb dcap hk hd c0 c1)
 
 /-- … in particular when ALL keys collide in one bucket (constant hash function) and with capacity 1 -/
-theorem refines_all_collide (kind : Kind) (c : Nat) (ops : List Op) :
-    (run kind (fun _ => c) ⟨Table.construct 1, Table.construct 1⟩ ops).map (fun r => (abs r.1, r.2))
+theorem refines_all_collide (kind : Kind) (c : Nat) (ipb dcap : Nat) (hk : 0 < ipb) (hd : 0 < dcap) (ops : List Op) :
+    (run kind (fun _ => c) ⟨Table.construct ipb dcap 1, Table.construct ipb dcap 1⟩ ops).map (fun r => (abs r.1, r.2))
       = Spec.run kind Spec.init ops :=
-  refines_every_capacity kind (fun _ => c) 1 1 ops
+  refines_every_capacity kind (fun _ => c) ipb dcap hk hd 1 1 ops
 
 /-- capacity and hash function are unobservable: two runs with different hash functions and capacities
     give the same results -/
-theorem hash_and_capacity_unobservable (kind : Kind) (h h' : Nat → Nat) (c0 c1 c0' c1' : Nat) (ops : List Op) :
-    (run kind h ⟨Table.construct c0, Table.construct c1⟩ ops).map (fun r => (abs r.1, r.2))
-      = (run kind h' ⟨Table.construct c0', Table.construct c1'⟩ ops).map (fun r => (abs r.1, r.2)) := by
-  rw [refines_every_capacity, refines_every_capacity]
+theorem hash_and_capacity_unobservable (kind : Kind) (h h' : Nat → Nat) (ipb dcap ipb' dcap' : Nat)
+    (hk : 0 < ipb) (hd : 0 < dcap) (hk' : 0 < ipb') (hd' : 0 < dcap') (c0 c1 c0' c1' : Nat) (ops : List Op) :
+    (run kind h ⟨Table.construct ipb dcap c0, Table.construct ipb dcap c1⟩ ops).map (fun r => (abs r.1, r.2))
+      = (run kind h' ⟨Table.construct ipb' dcap' c0', Table.construct ipb' dcap' c1'⟩ ops).map (fun r => (abs r.1, r.2)) := by
+  rw [refines_every_capacity kind h ipb dcap hk hd, refines_every_capacity kind h' ipb' dcap' hk' hd']
 
 /-! ### inserting a key that is already present -/
 
@@ -299,18 +332,19 @@ open Ptr in
 /-- C02 at pointer level: for every hash function, container kind and op list the pointer-level model started with two
     default-constructed tables yields exactly the results of the association-list specification and never faults
     on an op list the specification accepts -/
-theorem ptr_refines (kind : Kind) (h : Nat → Nat) (ops : List Op) :
-    (prun kind h pinit ops).map (fun r => r.2) = (Spec.run kind Spec.init ops).map (fun r => r.2) := by
-  rw [← abs_init]
-  exact ptr_refines_from kind h ops pinit init pinit_rel (init_inv h)
+theorem ptr_refines (kind : Kind) (h : Nat → Nat) (ipb dcap : Nat) (hk : 0 < ipb) (hd : 0 < dcap) (ops : List Op) :
+    (prun kind h (pinitWith ipb dcap) ops).map (fun r => r.2) = (Spec.run kind Spec.init ops).map (fun r => r.2) := by
+  rw [← abs_initWith ipb dcap]
+  exact ptr_refines_from kind h ops _ _ (pinitWith_rel ipb dcap) (initWith_inv h ipb dcap hk hd)
 
 open Ptr in
 /-- … and for EVERY pair of capacities (0 becomes 1 as in the code), in particular capacity 1 with a constant hash -/
-theorem ptr_refines_every_capacity (kind : Kind) (h : Nat → Nat) (c0 c1 : Nat) (ops : List Op) :
-    (prun kind h ⟨PTable.construct false c0, PTable.construct true c1⟩ ops).map (fun r => r.2)
+theorem ptr_refines_every_capacity (kind : Kind) (h : Nat → Nat) (ipb dcap : Nat) (hk : 0 < ipb) (hd : 0 < dcap)
+    (c0 c1 : Nat) (ops : List Op) :
+    (prun kind h ⟨PTable.construct false ipb dcap c0, PTable.construct true ipb dcap c1⟩ ops).map (fun r => r.2)
       = (Spec.run kind Spec.init ops).map (fun r => r.2) :=
-  ptr_refines_from kind h ops _ ⟨Table.construct c0, Table.construct c1⟩
-    ⟨fresh_rel false _, fresh_rel true _, rfl, rfl⟩ (inv_construct h c0 c1)
+  ptr_refines_from kind h ops _ ⟨Table.construct ipb dcap c0, Table.construct ipb dcap c1⟩
+    ⟨fresh_rel false _ _ _, fresh_rel true _ _ _, rfl, rfl⟩ (inv_construct h ipb dcap hk hd c0 c1)
 
 open Ptr in
 /-- inserting a key that is already present, pointer level: `find` returns the existing item (whatever the collisions),
@@ -325,12 +359,13 @@ theorem ptr_insert_existing (kind : Kind) (h : Nat → Nat) (pt : PTable) (t : T
 open Ptr in
 /-- in every reachable pointer-level table iterating backwards (`--it` from `end()` along `prev`) visits exactly the
     forward order reversed, and both traversals end within `size` steps -/
-theorem ptr_backward_iteration (kind : Kind) (h : Nat → Nat) (ops : List Op) (ps' : PState) (outs : List Out)
-    (hr : prun kind h pinit ops = some (ps', outs)) (t : Bool) :
+theorem ptr_backward_iteration (kind : Kind) (h : Nat → Nat) (ipb dcap : Nat) (hk : 0 < ipb) (hd : 0 < dcap)
+    (ops : List Op) (ps' : PState) (outs : List Out)
+    (hr : prun kind h (pinitWith ipb dcap) ops = some (ps', outs)) (t : Bool) :
     ∃ l, (ps'.get t).order = some l ∧ (ps'.get t).orderBack = some l.reverse := by
-  have h1 := ptr_simulated kind h ops pinit init pinit_rel (init_inv h)
+  have h1 := ptr_simulated kind h ops _ _ (pinitWith_rel ipb dcap) (initWith_inv h ipb dcap hk hd)
   rw [hr] at h1
-  cases hrun : run kind h init ops with
+  cases hrun : run kind h (initWith ipb dcap) ops with
   | none => rw [hrun] at h1; exact False.elim h1
   | some r =>
     rw [hrun] at h1
@@ -339,12 +374,35 @@ theorem ptr_backward_iteration (kind : Kind) (h : Nat → Nat) (ops : List Op) (
     exact ⟨_, (h1.2.1.get t).1.order_eq (h1.2.2.get t), (h1.2.1.get t).1.orderBack_eq (h1.2.2.get t)⟩
 
 open Ptr in
+/-- the same at pointer level: block size and default capacity of every reachable pointer-level table are the class
+    constants, and the items on its order list are slots of its allocated blocks -/
+theorem ptr_block_structure (kind : Kind) (h : Nat → Nat) (ipb dcap : Nat) (hk : 0 < ipb) (hd : 0 < dcap)
+    (ops : List Op) (ps' : PState) (outs : List Out)
+    (hr : prun kind h (pinitWith ipb dcap) ops = some (ps', outs)) (t : Bool) :
+    (ps'.get t).ipb = ipb ∧ (ps'.get t).dcap = dcap ∧
+    ∃ l, (ps'.get t).order = some l ∧ ∀ id ∈ l, id < ipb * (ps'.get t).blocks := by
+  have h1 := ptr_simulated kind h ops _ _ (pinitWith_rel ipb dcap) (initWith_inv h ipb dcap hk hd)
+  rw [hr] at h1
+  cases hrun : run kind h (initWith ipb dcap) ops with
+  | none => rw [hrun] at h1; exact False.elim h1
+  | some r =>
+    rw [hrun] at h1
+    obtain ⟨s', os'⟩ := r
+    simp only at h1
+    have hrel := (h1.2.1.get t).1
+    have hb := block_structure kind h ipb dcap hk hd ops s' os' hrun t
+    refine ⟨by rw [hrel.ipb]; exact hb.1, by rw [hrel.dcap]; exact hb.2.1, _, hrel.order_eq (h1.2.2.get t), ?_⟩
+    rw [hrel.blocks]
+    exact hb.2.2.1
+
+open Ptr in
 /-- structure of every reachable pointer-level table: there are id lists (`chain b`, `order`, `free`) such that every bucket
     chain is a `nextCell` list whose `cell` back-pointers designate the referring cells, holds exactly the live items whose
     key hashes to the bucket, each once; the `next`/`prev` list is closed by the table's own sentinel; iteration along `next`
     ends within `size` steps; live and free items are disjoint -/
-theorem ptr_structure (kind : Kind) (h : Nat → Nat) (ops : List Op) (ps' : PState) (outs : List Out)
-    (hr : prun kind h pinit ops = some (ps', outs)) (t : Bool) :
+theorem ptr_structure (kind : Kind) (h : Nat → Nat) (ipb dcap : Nat) (hk : 0 < ipb) (hd : 0 < dcap)
+    (ops : List Op) (ps' : PState) (outs : List Out)
+    (hr : prun kind h (pinitWith ipb dcap) ops = some (ps', outs)) (t : Bool) :
     ∃ (chain : Nat → List Nat) (order free : List Nat),
       ((ps'.get t).allocated = true → ∀ b, Chain (ps'.get t).items b ((ps'.get t).heads b) (chain b) ∧ (chain b).Nodup ∧
         ∀ id, id ∈ chain b ↔ (id ∈ order ∧ h ((ps'.get t).items id).key % (ps'.get t).cap = b)) ∧
@@ -352,9 +410,9 @@ theorem ptr_structure (kind : Kind) (h : Nat → Nat) (ops : List Op) (ps' : PSt
       (ps'.get t).order = some order ∧ (ps'.get t).size = order.length ∧ (ps'.get t).endPrev = order.getLast? ∧
       FreeL (ps'.get t).items (ps'.get t).freeItem free ∧ (∀ id ∈ free, id ∉ order) ∧
       (order.map (fun id => ((ps'.get t).items id).key)).Nodup ∧ 0 < (ps'.get t).cap := by
-  have h1 := ptr_simulated kind h ops pinit init pinit_rel (init_inv h)
+  have h1 := ptr_simulated kind h ops _ _ (pinitWith_rel ipb dcap) (initWith_inv h ipb dcap hk hd)
   rw [hr] at h1
-  cases hrun : run kind h init ops with
+  cases hrun : run kind h (initWith ipb dcap) ops with
   | none => rw [hrun] at h1; exact absurd h1 id
   | some r =>
     rw [hrun] at h1
@@ -394,7 +452,7 @@ example :
 
 /-- a reachable state with a chain of length three meets `Inv` (so `find_correct`, `insert_existing_keeps_pos` are not vacuous) -/
 example : ∃ t : Table, t.Inv (fun _ => 7) ∧ (t.data 0).length = 3 ∧ 2 ∈ Spec.keys t.iterate := by
-  have hi := (((construct_inv (fun _ => 7) 1).insert Kind.set 0 1 0 (Nat.zero_le _)).1.insert Kind.set 0 2 0 (Nat.zero_le _)).1.insert
+  have hi := (((construct_inv (fun _ => 7) 4 500 1 (by decide) (by decide)).insert Kind.set 0 1 0 (Nat.zero_le _)).1.insert Kind.set 0 2 0 (Nat.zero_le _)).1.insert
     Kind.set 0 3 0 (Nat.zero_le _)
   exact ⟨_, hi.1, by decide, by decide⟩
 
@@ -411,8 +469,8 @@ example :
 /-- the hypotheses of `ptr_insert_existing` / `ptr_simulated` are met by a non-empty coupled pair of tables -/
 example : ∃ (pt : Ptr.PTable) (t : Table), Ptr.Rel pt t ∧ t.Inv (fun _ => 7) ∧ 0 ∈ t.order ∧ (t.items 0).key = 5 := by
   obtain ⟨r, _, _, hr, _⟩ :=
-    (Ptr.fresh_rel false 1).insert (fresh_inv (fun _ => 7) 1 (by decide)) Kind.map 0 5 50 (Nat.zero_le _)
-  exact ⟨r.1, _, hr, ((fresh_inv (fun _ => 7) 1 (by decide)).insert Kind.map 0 5 50 (Nat.zero_le _)).1,
+    (Ptr.fresh_rel false 1 4 500).insert (fresh_inv (fun _ => 7) 1 4 500 (by decide) (by decide) (by decide)) Kind.map 0 5 50 (Nat.zero_le _)
+  exact ⟨r.1, _, hr, ((fresh_inv (fun _ => 7) 1 4 500 (by decide) (by decide) (by decide)).insert Kind.map 0 5 50 (Nat.zero_le _)).1,
     by decide, by decide⟩
 
 /-- the empty string as an owned string and as an empty view in the middle of "ab": both are well-formed views with equal
